@@ -1041,12 +1041,43 @@ func (env *Env) conjuncts(e Expr, depth int) []Expr {
 	if b, ok := e.(Binary); ok && b.Op == "&&" {
 		return append(env.conjuncts(b.X, depth), env.conjuncts(b.Y, depth)...)
 	}
+	if b, ok := e.(Binary); ok && b.Op == "==>" && depth < 6 {
+		// X ==> (A && B)  is  (X ==> A) && (X ==> B)
+		if parts := env.conjuncts(b.Y, depth+1); len(parts) > 1 {
+			var out []Expr
+			for _, pt := range parts {
+				out = append(out, Binary{"==>", b.X, pt})
+			}
+			return out
+		}
+	}
+	if c, ok := e.(CallE); ok && c.Fn == "ite" && len(c.Args) == 3 && depth < 6 {
+		// a boolean ite(c, A, B) is (c ==> A) && (!c ==> B); only worth it when a branch splits further
+		a, bb := env.conjuncts(c.Args[1], depth+1), env.conjuncts(c.Args[2], depth+1)
+		if len(a) > 1 || len(bb) > 1 {
+			var out []Expr
+			for _, pt := range a {
+				out = append(out, Binary{"==>", c.Args[0], pt})
+			}
+			for _, pt := range bb {
+				out = append(out, env.conjuncts(Binary{"==>", Unary{"!", c.Args[0]}, pt}, depth+1)...)
+			}
+			return out
+		}
+	}
 	if c, ok := e.(CallE); ok && depth < 6 {
 		if env.pkg != nil && env.pkgPath == "" {
 			env.pkgPath = env.pkg.Path()
 		}
 		if m, ok := env.vc.eng.contracts.Macros[env.pkgPath+"::"+c.Fn]; ok && len(m.Params) == len(c.Args) {
-			if _, isAnd := m.E.(Binary); isAnd && m.E.(Binary).Op == "&&" {
+			splittable := false
+			if b, isB := m.E.(Binary); isB && (b.Op == "&&" || b.Op == "==>") {
+				splittable = true
+			}
+			if ce, isC := m.E.(CallE); isC && ce.Fn == "ite" {
+				splittable = true
+			}
+			if splittable {
 				// expand only when no argument mentions a name bound inside the macro body (capture)
 				bound := boundNames(m.E)
 				safe := true
